@@ -561,6 +561,8 @@ async fn run_case_async(case: &Value) -> Value {
         Ok(p) => p,
         Err(e) => return json!({"build_error": e.to_string()}),
     };
+    // what ServerBuilder::build would say about this plane when introspection is on (PlaneModel::check_meta_collisions)
+    let meta_collision = plane.check_meta_collisions().is_err();
     let mut config = SwimServerConfig::default();
     config.agent_runtime.inactive_timeout = inactive;
     config.agent_runtime.prune_remote_delay = ms("prune_ms", hours);
@@ -645,9 +647,11 @@ async fn run_case_async(case: &Value) -> Value {
                     if let Some(mut tx) = peers.get_mut(&r).and_then(|p| p.tx.take()) {
                         let (back_tx, back_rx) = oneshot::channel();
                         let log = log.clone();
+                        let mut rec = a.clone();
+                        rec["k"] = json!("send");
                         tokio::spawn(async move {
                             tokio::time::sleep(Duration::from_nanos(ns)).await;
-                            log.lock().push(json!({"k": "sent_at", "r": r}));
+                            log.lock().push(rec);
                             let _ = tx.write_all(&ws_frame(true, 0x1, text.as_bytes())).await;
                             let _ = back_tx.send(tx);
                         });
@@ -747,7 +751,7 @@ async fn run_case_async(case: &Value) -> Value {
     settle().await;
     let l = log.lock();
     let end: Vec<Value> = l[mark..].to_vec();
-    json!({"obs": obs, "end": end, "server_finished": finished})
+    json!({"obs": obs, "end": end, "server_finished": finished, "meta_collision": meta_collision})
 }
 
 fn run_case(case: &Value) -> Value {
